@@ -193,7 +193,6 @@ func cliScriptTerm(s peer.CliScript, own []string) string {
 		methList(split(s.Methods)), ciphList(split(s.Ciphers)), keyTerm(s.Key), core.List(ms))
 }
 
-
 // batcher groups runs into one Coq case (a list of case1 terms): Coq's start-up
 // cost per case file dominates, so fewer, larger files are much faster.
 type batcher struct {
